@@ -432,26 +432,102 @@ def list_based_min_merge(ctx, f):
               f"after the first merge they are no longer the two smallest, so merging can stop early")
 
 
+def _size_arms(ctx, f, loop, pv):
+    """the per-plate loop body as guarded arms [(test, body)] plus the trailing else (or None), with `if c: ...; continue`
+    written as an if / else chain first"""
+    from engine.peval import eliminate_continues
+    import copy as _copy
+    body = loop.body
+    if any(isinstance(x, ast.Continue) for st in body for x in ast.walk(st)):
+        body = eliminate_continues([_copy.deepcopy(st) for st in body])
+        if body is None:
+            raise AnalysisError(f"{f.site()}: the per-plate loop uses `continue` in a form that is not an if / else chain")
+    pre = [st for st in body if isinstance(st, ast.Assign)]
+    rest = [st for st in body if not isinstance(st, ast.Assign)]
+    n = rest[0] if len(rest) == 1 else None
+    if not isinstance(n, ast.If):
+        raise AnalysisError(f"{f.site()}: the per-plate loop body is not a single size comparison chain")
+    penv = {st.targets[0].id: st.value for st in pre if isinstance(st.targets[0], ast.Name)}
+    arms = []
+    while isinstance(n, ast.If):
+        arms.append((n.test, n.body))
+        if len(n.orelse) == 1 and isinstance(n.orelse[0], ast.If):
+            n = n.orelse[0]
+        elif not n.orelse:
+            n = None
+        else:
+            # an else arm that is itself [assignments..., If] continues the chain only if it starts with the If
+            n = ("else", n.orelse)
+    return arms, (n if isinstance(n, tuple) else None), penv
+
+
+def _contribution(ctx, f, S, pv, stmts, penv, acc_masks):
+    """what an arm adds to the retained rows: [("whole", None) | ("rows", index expr) | ("plate-of", mask expr)] in statement order"""
+    out = []
+    env = dict(penv)
+    for st in stmts:
+        if isinstance(st, ast.Assign) and len(st.targets) == 1 and isinstance(st.targets[0], ast.Name):
+            env[st.targets[0].id] = st.value
+    for st in stmts:
+        for c in calls(st):
+            if attr_tail(c) == "append" and len(c.args) == 1:
+                v = inline(c.args[0], env)
+                if U(v) == pv:
+                    out.append(("whole", None))
+                elif isinstance(v, ast.Call) and U(v.func) == "Plate" and len(v.args) == 2 and U(v.args[0]) == S:
+                    m = v.args[1]
+                    if isinstance(m, ast.Call) and U(m.func) == "np.isin" and len(m.args) == 2 and U(m.args[0]).replace(" ", "") == f"np.arange({S}.size)":
+                        out.append(("rows", m.args[1]))
+                    else:
+                        out.append(("mask", m))
+                else:
+                    out.append(("other", v))
+        if isinstance(st, ast.AugAssign) and isinstance(st.op, ast.BitOr) and U(st.target) in acc_masks:
+            v = inline(st.value, env)
+            out.append(("whole", None) if U(v) == f"{pv}.selection_vector" else ("mask", v))
+        if isinstance(st, ast.Assign) and len(st.targets) == 1 and U(st.targets[0]) in acc_masks and isinstance(st.value, ast.BinOp) and isinstance(st.value.op, ast.BitOr):
+            sides = [U(inline(x, env)) for x in (st.value.left, st.value.right)]
+            if U(st.targets[0]) in sides:
+                other = [x for x in sides if x != U(st.targets[0])]
+                out.append(("whole", None) if other == [f"{pv}.selection_vector"] else ("mask", st.value))
+        if isinstance(st, ast.Assign) and len(st.targets) == 1 and isinstance(st.targets[0], ast.Subscript) and U(st.targets[0].value) in acc_masks:
+            if isinstance(st.value, ast.Constant) and st.value.value is True:
+                out.append(("rows", inline(st.targets[0].slice, env)))
+            else:
+                out.append(("other", st.value))
+    return out
+
+
 def r4(ctx):
     N = Norm(strict=False)
-    for cls, target in (("FixedSizeSmoother", "self.plate_size"), ("OptimalSizeSmoother", "optimal_size")):
+    found_target = {}
+    for cls, want_target in (("FixedSizeSmoother", "self.plate_size"), ("OptimalSizeSmoother", None)):
         f = ctx.fn(f"{RETRO}.{cls}._smooth_plates")
         S = f.params[1]
         loops = [n for n in walk_own(f.node) if isinstance(n, ast.For) and U(n.iter) == f"{S}.plates"]
         ctx.need(len(loops) == 1, f"{f.site()}: loop over plates not found")
         loop = loops[0]
         pv = U(loop.target)
-        arms = []
-        pre = [st for st in loop.body if isinstance(st, ast.Assign)]
-        rest = [st for st in loop.body if not isinstance(st, ast.Assign)]
-        n = rest[0] if len(rest) == 1 else None
-        if not isinstance(n, ast.If):
-            raise AnalysisError(f"{f.site()}: the per-plate loop body is not a single size comparison chain")
-        penv = {st.targets[0].id: st.value for st in pre if isinstance(st.targets[0], ast.Name)}
-        while isinstance(n, ast.If):
-            arms.append((n.test, n.body))
-            n = n.orelse[0] if len(n.orelse) == 1 else (None if not n.orelse else ("else", n.orelse))
-        tail_else = n if isinstance(n, tuple) else None
+        arms, tail_else, penv = _size_arms(ctx, f, loop, pv)
+        fenv = single_defs(f.node)
+        # boolean accumulators of retained rows: np.zeros(S.size, dtype=bool) handed to S.subset(..)
+        acc_masks = {k for k, v in fenv.items() if False}
+        for n in walk_own(f.node):
+            if isinstance(n, ast.Assign) and len(n.targets) == 1 and isinstance(n.targets[0], ast.Name) and U(n.value).replace(" ", "") in (f"np.zeros({S}.size,dtype=bool)", f"np.zeros({S}.size,bool)"):
+                acc_masks.add(n.targets[0].id)
+        # the common threshold of the comparisons
+        target = None
+        for t, body in arms:
+            t = inline(t, penv)
+            if isinstance(t, ast.Compare) and len(t.ops) == 1:
+                l, r = U(t.left), U(t.comparators[0])
+                cand = r if l == f"{pv}.size" else (l if r == f"{pv}.size" else None)
+                if cand is not None:
+                    target = target or cand
+        ctx.need(target is not None, f"{f.site()}: no comparison of `{pv}.size` with a threshold was found")
+        found_target[cls] = target
+        if want_target is not None:
+            ctx.check("R4", f"{f.site()}::threshold", target == want_target, f"plates are compared with {want_target}", f"plates are compared with `{target}`, not `{want_target}`")
         ops = {}
         for t, body in arms:
             b = N.b(inline(t, penv), integer=True)
@@ -465,9 +541,12 @@ def r4(ctx):
                   f"the size comparison handles only {sorted(ops)}: plates of the missing class fall through silently")
         if set(ops) != {"lt", "eq", "gt"}:
             continue
-        drop_ok = not any(attr_tail(c) == "append" for st in ops["lt"] for c in calls(st))
-        keep_ok = any(attr_tail(c) == "append" and (pv in names_in(inline(c.args[0], penv))) and not any(attr_tail(x) == "choice" for x in calls(st))
-                      for st in ops["eq"] for c in calls(st))
+        con = {k: _contribution(ctx, f, S, pv, ops[k], penv, acc_masks) for k in ops}
+        drop_ok = not con["lt"]
+        keep_ok = con["eq"] == [("whole", None)] and not any(attr_tail(x) == "choice" for st in ops["eq"] for x in calls(st))
+        if not keep_ok and not con["eq"] and not any(attr_tail(c) == "append" for st in ops["eq"] for c in calls(st)) \
+                and any(isinstance(c.func, ast.Name) and ctx.R.chase(f.mod, c.func.id) in ctx.R.funcs for st in ops["eq"] for c in calls(st)):
+            raise AnalysisError(f"{f.site()}: the equal-size arm delegates to a helper; what it keeps is not visible to this rule")
         ctx.check("R4", f"{f.site()}::drop-small-keep-equal", drop_ok and keep_ok, "smaller plates are dropped, equal plates kept whole",
                   "a smaller plate is kept or an equal plate is not kept as is")
         gt = ast.Module(body=ops["gt"], type_ignores=[])
@@ -477,38 +556,37 @@ def r4(ctx):
             if helpers:
                 raise AnalysisError(f"{f.site()}: the larger-plate arm delegates to `{U(helpers[0].func)}`; the sub-sampling is not visible to this rule")
         ok = False
-        if len(ch) == 1:
+        if len(ch) == 1 and len(con["gt"]) == 1 and con["gt"][0][0] == "rows":
             pop, size, rep = arg(ch[0], 0, "a"), arg(ch[0], 1, "size"), arg(ch[0], 2, "replace")
-            genv0 = dict(penv)
+            genv0 = dict(fenv)
+            genv0.update(penv)
             for st in ops["gt"]:
                 if isinstance(st, ast.Assign) and isinstance(st.targets[0], ast.Name):
                     genv0[st.targets[0].id] = st.value
+            genv0 = {k: v for k, v in genv0.items() if k not in (S, pv, "rng") and k != target}
             pop_i = U(inline(pop, genv0)).replace(" ", "")
-            ok = pop_i in (f"np.arange({S}.size)[{pv}.selection_vector]", f"np.flatnonzero({pv}.selection_vector)", f"np.where({pv}.selection_vector)[0]") \
+            ok = pop_i in (f"np.arange({S}.size)[{pv}.selection_vector]", f"np.flatnonzero({pv}.selection_vector)", f"np.where({pv}.selection_vector)[0]",
+                           f"np.nonzero({pv}.selection_vector)[0]") \
                 and U(size) == target and U(ch[0].func.value) == "rng"
-            genv = {}
-            for st in ops["gt"]:
-                if isinstance(st, ast.Assign) and isinstance(st.targets[0], ast.Name):
-                    genv[st.targets[0].id] = st.value
-            app = [c for c in calls(gt, tail="append")]
-            if ok and len(app) == 1:
-                v = inline(app[0].args[0], genv)
-                # what is kept must be (a view / index set made of) exactly the drawn rows
-                ok = U(inline(ch[0], genv)).replace(" ", "") in U(v).replace(" ", "")
-            else:
-                ok = False
+            # what is kept must be exactly the drawn rows
+            kept = con["gt"][0][1]
+            ok = ok and U(inline(kept, {k: v for k, v in genv0.items()})).replace(" ", "") == U(inline(ch[0], genv0)).replace(" ", "")
         ctx.check("R4", f"{f.site()}::subsample-large", ok, f"larger plates keep `{target}` drawn rows of their own (no-duplication is C11.R3's clause)",
                   f"a larger plate is not reduced to `{target}` rows drawn among its own rows (rng.choice(rows of the plate, {target}))")
     # optimal size
     f = ctx.fn(f"{RETRO}.OptimalSizeSmoother._smooth_plates")
     S = f.params[1]
     env = single_defs(f.node)
-    opt = env.get("optimal_size")
-    ctx.need(opt is not None, f"{f.site()}: optimal_size definition not found")
+    tname = found_target.get("OptimalSizeSmoother")
+    opt = env.get(tname) if tname else None
+    ctx.need(opt is not None, f"{f.site()}: the definition of the size threshold `{tname}` was not found")
     e = inline(opt, env)
-    sizes = f"np.sort(np.array([plate.size for plate in {S}.plates]))"
-    want = N.key(parse_expr(f"{sizes}[np.argmax({sizes} * (len({sizes}) - np.arange(len({sizes}))))]"))
-    ctx.check("R4", f"{f.site()}::optimal-size", N.key(e) == want, "optimal size = sorted sizes at argmax(size_i * (n - i)) (experiments retained)",
+    wants = set()
+    for pvn in ("plate", "p"):
+        for arr in ("np.array", "np.asarray"):
+            sizes = f"np.sort({arr}([{pvn}.size for {pvn} in {S}.plates]))"
+            wants.add(N.key(parse_expr(f"{sizes}[np.argmax({sizes} * (len({sizes}) - np.arange(len({sizes}))))]")))
+    ctx.check("R4", f"{f.site()}::optimal-size", N.key(e) in wants, "optimal size = sorted sizes at argmax(size_i * (n - i)) (experiments retained)",
               f"optimal_size is `{U(opt)}` with a criterion other than argmax over sorted sizes of size_i * (number of plates at least that large)")
 
 
